@@ -383,7 +383,10 @@ def errprop(e, env, H: Helpers, lemmas=None, total=False):
             (Va, Ea, Ra), (Vb, Eb, Rb) = rec(n.args[0]), rec(n.args[1])
             if total and ((Vb.lo <= 0 <= Vb.hi) or (Rb.lo <= 0 <= Rb.hi)):
                 TOPI = I(-INF, INF)
-                r = (TOPI, TOPI, TOPI)          # range mode: an unbounded quotient instead of giving up (E is useless then)
+                if not (Rb.lo <= 0 <= Rb.hi):
+                    r = (TOPI, TOPI, rounded(Ra / Rb))    # the COMPUTED divisor cannot vanish: its quotient is enclosed; nothing is said about the ideal one
+                else:
+                    r = (TOPI, TOPI, TOPI)          # range mode: an unbounded quotient instead of giving up (E is useless then)
             else:
                 V = Va / Vb
                 E = (Ea - V * Eb) / Rb
@@ -417,6 +420,22 @@ def errprop(e, env, H: Helpers, lemmas=None, total=False):
                     for (v2, e2, r2) in parts[1:]:
                         V, E, R = V.hull(v2), E.hull(e2), R.hull(r2)
                     r = (V, E, R)
+                elif total and _node_test(n.args[0], rec) is not None:
+                    # range mode:  |N| < k  /  |N - c| < k  on an inner node N: each branch is evaluated with the computed value
+                    # of N confined to what the (computed) test leaves; ideal values and errors are not claimed (TOP)
+                    N, then_R, else_R = _node_test(n.args[0], rec)
+                    parts = []
+                    for cons, br in ((then_R, n.args[1]), (else_R, n.args[2])):
+                        if cons is None: continue
+                        def lem2(m, cons=cons, N=N):
+                            if m is N: return ('R', cons)
+                            return lemmas(m) if lemmas is not None else None
+                        parts.append(errprop(br, env, H, lem2, total)[2])
+                    if not parts: raise Unsupported('both branches of a select are infeasible')
+                    R = parts[0]
+                    for r2 in parts[1:]: R = R.hull(r2)
+                    TOPI = I(-INF, INF)
+                    r = (TOPI, TOPI, R)
                 else:
                     (Va, Ea, Ra), (Vb, Eb, Rb) = rec(n.args[1]), rec(n.args[2])
                     # a branch that returns the very value the condition tests is bounded by the test:
@@ -510,7 +529,9 @@ def errprop(e, env, H: Helpers, lemmas=None, total=False):
             raise Unsupported(f"error propagation through {op}")
         if lemmas is not None:
             Lm = lemmas(n)
-            if Lm is not None:
+            if isinstance(Lm, tuple) and Lm and Lm[0] == 'R':
+                r = (r[0], r[1], meet(r[2], Lm[1]))        # a fact about the computed value only
+            elif Lm is not None:
                 r = (meet(r[0], Lm), r[1], meet(r[2], Lm))
         cache[n.id] = r
         return r
@@ -550,6 +571,36 @@ def _clip_by_cond(c, branch, taken):
         import numpy as np                     # strict comparison of binary32 values: the neighbouring float is the bound
         k = float(np.nextafter(np.float32(k), np.float32(-np.inf if op == 'lt' else np.inf)))
     return I(-INF, k) if op in ('lt', 'le') else I(k, INF)
+
+def _node_test(c, rec):
+    """(N, enclosure of computed N where the test holds, enclosure where it fails) for a test  |N| < k  or  |N - c0| < k
+    (k, c0 constants; lt / le) on the computed values; None for other shapes.  A side that is infeasible is None.
+    fl is monotone: |fl(x)| < k  =>  |x| < k  is NOT needed; we use  |fl(x)| >= k  =>  |x| > pred(k)  and  |fl(x)| < k  =>  |x| < k"""
+    if c.op not in ('lt', 'le') or not c.args[1].is_const or c.args[0].op != 'call:abs':
+        return None
+    k = float(c.args[1].val)
+    if not (k > 0): return None
+    A = c.args[0].args[0]
+    c0 = 0.0
+    N = A
+    if A.op == 'fsub' and A.args[1].is_const:
+        N, c0 = A.args[0], float(A.args[1].val)
+    elif A.op == 'fadd' and A.args[1].is_const:
+        N, c0 = A.args[0], -float(A.args[1].val)
+    if N.is_const: return None
+    RN = rec(N)[2]
+    import numpy as np
+    pk = float(np.nextafter(np.float32(k), np.float32(0)))       # pred(k) in binary32
+    inside = I(dn(c0 - k), up(c0 + k))
+    lo_i, hi_i = max(RN.lo, inside.lo), min(RN.hi, inside.hi)
+    then_R = I(lo_i, hi_i) if lo_i <= hi_i else None
+    parts = []
+    if RN.lo <= up(c0 - pk): parts.append(I(RN.lo, min(RN.hi, up(c0 - pk))))
+    if RN.hi >= dn(c0 + pk): parts.append(I(max(RN.lo, dn(c0 + pk)), RN.hi))
+    else_R = None
+    for p_ in parts:
+        else_R = p_ if else_R is None else else_R.hull(p_)
+    return N, then_R, else_R
 
 def _refine(c, env):
     """(env for the then-branch, env for the else-branch) when c compares an input atom (possibly under
@@ -591,8 +642,10 @@ def _cmp_operands(c):
         if hasattr(a, 'op'): out += _cmp_operands(a)
     return out
 
-def sup_error(e, x, H, lo, hi, target, max_boxes=20000, min_width=1e-12):
-    """upper bound of sup_[lo,hi] |computed - ideal| by branch and bound; returns (upper, boxes, worst_box)"""
+def sup_error(e, x, H, lo, hi, target, max_boxes=20000, min_width=1e-12, identity=False):
+    """upper bound of sup_[lo,hi] |computed - ideal| by branch and bound; returns (upper, boxes, worst_box).
+    identity=True: bounds sup |computed(x) - x| instead (the enclosure R of the computed value over the box minus the box:
+    signed, so the formula-level deviation and the implementation error are not added in absolute value)"""
     import heapq
     def bound(a, b):
         try:
@@ -600,6 +653,9 @@ def sup_error(e, x, H, lo, hi, target, max_boxes=20000, min_width=1e-12):
         except (ZeroDivisionError, OverflowError, Unsupported) as ex:
             last[0] = str(ex)
             return INF            # may be an artefact of a wide box: split; reported if it persists at min_width
+        if identity:
+            D = R - I(a, b)
+            return D.mag if D.mag == D.mag else INF
         return E.mag if E.mag == E.mag else INF
     last = ['']
     heap = [(-bound(lo, hi), lo, hi)]
